@@ -263,7 +263,20 @@ var solvers = []solverSpec{
 	}},
 }
 
+// procSem bounds the number of solver processes running at once (one per core), so that per-query time
+// limits measure solver work rather than contention.
+var procSem = make(chan struct{}, 16)
+
 func runSolver(ctx context.Context, s solverSpec, file string, timeout int) (status, out string) {
+	select {
+	case procSem <- struct{}{}:
+	case <-ctx.Done():
+		return "unknown", "cancelled"
+	}
+	defer func() { <-procSem }()
+	if ctx.Err() != nil {
+		return "unknown", "cancelled"
+	}
 	args := s.cmd(file, timeout)
 	cctx, cancel := context.WithTimeout(ctx, time.Duration(timeout+2)*time.Second)
 	defer cancel()
@@ -294,44 +307,53 @@ func trunc(s string, n int) string {
 // solve discharges one query: old z3 first (fast on the common case), then all three raced.
 func solve(q *Query, c *Contracts, dir string, timeout int, cross bool) *SolveResult {
 	first := timeout
-	if !q.Cover && !cross && timeout > 3 && q.Run != nil {
-		first = 3
+	if !q.Cover && !cross && timeout > 4 && q.Run != nil {
+		first = 4
 	}
 	res := solveScript(q, c, dir, first, cross, q.PC, "")
-	if res.Status != "unknown" || q.Cover || q.Run == nil {
+	if res.Status != "unknown" || q.Cover || q.Run == nil || first == timeout {
 		return res
 	}
-	// sliced variants (sound: fewer assumptions); only unsat answers count
-	for k := 0; k < 3; k++ {
-		var pc []string
-		switch k {
-		case 0:
-			pc = q.dropHeavy(q.PC)
-		case 1:
-			pc = q.slicePC(0)
-		case 2:
-			pc = q.dropHeavy(q.slicePC(0))
+	// second stage: the full query and its sliced variants (sound: fewer assumptions) run side by side;
+	// an unsat answer from any of them discharges the obligation, sat only counts from the full query
+	type job struct {
+		pc  []string
+		tag string
+	}
+	jobs := []job{{q.PC, ""}}
+	seen := map[int]bool{len(q.PC): true}
+	for k, pc := range [][]string{q.dropHeavy(q.PC), q.slicePC(0), q.dropHeavy(q.slicePC(0))} {
+		if !seen[len(pc)] {
+			seen[len(pc)] = true
+			jobs = append(jobs, job{pc, fmt.Sprintf(".s%d", k)})
 		}
-		if len(pc) == len(q.PC) {
-			continue
-		}
-		r2 := solveScript(q, c, dir, timeout, false, pc, fmt.Sprintf(".s%d", k))
-		res.Seconds += r2.Seconds
-		if r2.Status == "unsat" {
-			r2.Seconds = res.Seconds
-			r2.Solver += fmt.Sprintf(" (sliced %d/%d assumptions)", len(pc), len(q.PC))
-			for s, o := range res.Outputs {
-				r2.Outputs["full:"+s] = o
+	}
+	out := make(chan *SolveResult, len(jobs))
+	for _, jb := range jobs {
+		go func(jb job) {
+			r := solveScript(q, c, dir, timeout, false, jb.pc, jb.tag)
+			if jb.tag != "" {
+				if r.Status == "unsat" {
+					r.Solver += fmt.Sprintf(" (sliced %d/%d assumptions)", len(jb.pc), len(q.PC))
+				} else {
+					r.Status = "unknown"
+				}
 			}
-			return r2
+			out <- r
+		}(jb)
+	}
+	best := res
+	for range jobs {
+		r := <-out
+		if r.Status == "unsat" {
+			r.Seconds += res.Seconds
+			return r
+		}
+		if r.Status == "sat" {
+			best = r
 		}
 	}
-	if first < timeout {
-		r3 := solveScript(q, c, dir, timeout, cross, q.PC, "")
-		r3.Seconds += res.Seconds
-		return r3
-	}
-	return res
+	return best
 }
 
 func solveScript(q *Query, c *Contracts, dir string, timeout int, cross bool, pc []string, tag string) *SolveResult {
